@@ -140,7 +140,9 @@ func panickable(p *pg.Program) []string {
 
 // small: programs with several items get one-element collections so that the
 // total number of jobs stays within exhaustive reach
-func small(p *pg.Program) bool { return p.Par != nil && len(p.Par.Items) >= 2 }
+func small(p *pg.Program) bool {
+	return p.Par != nil && (len(p.Par.Items) >= 2 || p.Par.Conc == "")
+}
 
 func defaultColls(p *pg.Program, sc *genrt.Scenario) {
 	if p.Par == nil {
